@@ -5,14 +5,14 @@ import "time"
 func init() {
 	registry = append(registry, property{id: "C07", parts: []part{
 		{name: "seeds", pkg: "./c07", run: "^TestSeedsUnmutated$",
-			shards: [2]int{1, 1}, timeout: [2]time.Duration{9 * min, 5 * min}},
+			shards: [2]int{1, 1}, timeout: [2]time.Duration{9 * min, 40 * min}},
 		{name: "dense", pkg: "./c07", run: "^TestDenseCatalogue$",
-			shards: [2]int{6, 16}, checks: [2]int{150, 8000}, timeout: [2]time.Duration{15 * min, 40 * min}},
+			shards: [2]int{6, 16}, checks: [2]int{150, 8000}, timeout: [2]time.Duration{15 * min, 80 * min}},
 		{name: "controlflow", pkg: "./c07", run: "^TestControlFlow$",
-			shards: [2]int{4, 16}, checks: [2]int{400, 20000}, timeout: [2]time.Duration{15 * min, 40 * min}},
+			shards: [2]int{4, 16}, checks: [2]int{400, 20000}, timeout: [2]time.Duration{15 * min, 80 * min}},
 		{name: "mutants", pkg: "./c07", run: "^TestMutateExamples$",
-			shards: [2]int{9, 16}, checks: [2]int{120, 6000}, timeout: [2]time.Duration{15 * min, 40 * min}},
+			shards: [2]int{9, 16}, checks: [2]int{120, 6000}, timeout: [2]time.Duration{15 * min, 80 * min}},
 		{name: "fuzz-mutants", pkg: "./c07", fuzz: "FuzzMutateExamples",
-			shards: [2]int{0, 1}, fuzztime: [2]time.Duration{0, 8 * min}, timeout: [2]time.Duration{15 * min, 30 * min}},
+			shards: [2]int{0, 1}, fuzztime: [2]time.Duration{0, 8 * min}, timeout: [2]time.Duration{15 * min, 60 * min}},
 	}})
 }
